@@ -38,6 +38,13 @@ var Hosts = []string{
 // DeepHost is a name of 40 labels below a.com.
 var DeepHost = strings.Repeat("x.", 38) + "a.com"
 
+// Host253 is a host name of the maximum legal length of 253 bytes (three
+// labels of 63, one of 57 and "com"); Host252 is one byte shorter.
+var (
+	Host253 = Label63 + "." + Label63 + "." + Label63 + "." + Label63[:57] + ".com"
+	Host252 = Host253[1:]
+)
+
 // Label63 is a host name label of the maximum legal length.
 const Label63 = "a23456789-b23456789-c23456789-d23456789-e23456789-f23456789-xyz"
 
@@ -77,7 +84,7 @@ var PatternTemplates = []string{
 	"HOST/ads", "://HOST", "http://HOST", "||HOST/*", "||HOST^$", ".HOST^", "||HOST:8080^",
 	"/ads/banner", "ads", "/ads^", "banner.js|", ".js|", "?q=", "=http", "/path/*/img", "^ads^", "*ads*",
 	"/Ads/b", "ADS.JS", "/abcde", "ababa", "babab", "/banner|", "|ws://", "|http", "://", "^", "*", "|", "||", "",
-	"/track", "/track/*.gif", "pixel.gif|", "ads_banner", "ads%20", "/ads.", "/ad_s.", "/a*s.", "js", "a", "/x?ads=1", "/HOST.", "/price\\$tag", "||HOST/cart\\$total^", "ads\\$", "\\$ads",
+	"/track", "/track/*.gif", "pixel.gif|", "ads_banner", "ads%20", "/ads.", "/ad_s.", "/a*s.", "js", "a", "/x?ads=1", "/HOST.", "/price\\$tag", "||HOST/cart\\$total^", "ads\\$", "\\$ads", "||HOST/a|b", "/ads/track.gif?a|b", "a.b|c", "/x.y.z|ads",
 	// Runs of wildcards and wildcards next to other operators.
 	"/bännér", "реклама", "||HOST/реклама^", "İstanbul", "||HOST/**", "/ads/***", "||HOST^**", "ads**banner", "**ads", "||HOST/*/*", "*/ads/*", "|*ads", "ads*|", "^*^", "/banner**|",
 }
@@ -95,6 +102,9 @@ var ClientNames = []Client{
 	{Text: "Zed", Name: "Zed"},
 	{Text: "alice-pc", Name: "alice-pc"},
 	{Text: "Bob", Name: "Bob"},
+	// Names that contain a slash without being an address prefix.
+	{Text: "kids/tablet", Name: "kids/tablet"},
+	{Text: "10.0.0.0/33", Name: "10.0.0.0/33"},
 	// Other spellings of names listed above.
 	{Text: `"Mom"`, Name: "Mom"},
 	{Text: `'kids'`, Name: "kids"},
@@ -134,7 +144,7 @@ var ClientIPs = []netip.Addr{
 // RequestClientNames are request client names.
 var RequestClientNames = []string{
 	"", "Mom", "kids", "dead", "cafe", "Frank's laptop", "Frank's phone",
-	"Mary's, John's, and Boris's laptops", "a|b", "Zed", "alice-pc", "Bob", "mom", "Dad",
+	"Mary's, John's, and Boris's laptops", "a|b", "Zed", "alice-pc", "Bob", "mom", "Dad", "kids/tablet", "10.0.0.0/33",
 }
 
 // CTagValues are client tags.
